@@ -16,6 +16,6 @@ if grep -q 'time\.Now()' "$SRC"; then
   EXTRA=", \"$SRC\": \"$OUT/chunkidgen.go\""
 fi
 cat > "$OUT/overlay.json" <<JSON
-{"Replace": {"$REPO/output/fluentdforward/zz_verif_export.go": "$VERIF/hooks/fluentdforward_export.go", "$REPO/output/shared/zz_verif_export.go": "$VERIF/hooks/shared_export.go"$EXTRA}}
+{"Replace": {"$REPO/output/fluentdforward/zz_verif_export.go": "$VERIF/hooks/fluentdforward_limits_export.go", "$REPO/output/shared/zz_verif_export.go": "$VERIF/hooks/shared_export.go"$EXTRA}}
 JSON
 echo "$OUT/overlay.json"
